@@ -294,6 +294,30 @@ fn lenient_strings(g: &StrGen, rng: &mut Rng) -> Vec<String> {
 }
 
 pub fn run(ctx: &mut Ctx) {
+    // many threads at once (two per core) inside the entry points, on strings that hold alone
+    if ctx.shard < 4 {
+        let mut rng = ctx.rng(0x7C0);
+        let mut cases: Vec<(Fmt, String)> = vec![];
+        for f in ALL_FMT {
+            let g = StrGen::new(f);
+            for i in 0..30usize {
+                let base = g.wellformed(&mut rng, 1 + i % 3);
+                cases.push((f, if i % 3 == 2 { g.mutate(&base, &mut rng) } else { base }));
+            }
+            cases.extend(["", "(", "{A,", "<A --> B>. %1;0.9%", "$0.5$ A. :|:"].iter().map(|s| (f, s.to_string())));
+        }
+        let rounds = if ctx.thorough { 60 } else { 6 };
+        for f in ALL_FMT {
+            let e = f.e();
+            // (many distinct numbers: a shared table of number texts has to evict)
+            cases.extend((0..120usize).map(|i| {
+                let x = (i * 3 + ctx.shard) as f64;
+                (f, format!("{}{:?}{}{:?}{} A{} {}{:?}{}{:?}{}", e.task.budget_brackets.0, x / 1013.0, e.task.budget_separator, (x + 2.0) / 1019.0, e.task.budget_brackets.1, e.sentence.punctuation_judgement, e.sentence.truth_brackets.0, x / 997.0, e.sentence.truth_separator, (x + 1.0) / 1009.0, e.sentence.truth_brackets.1))
+            }));
+        }
+        concurrent_family(ctx, "C12", "well-formedness of parsed and folded values", cases, rounds, |c| string_failure(c.0, &c.1));
+    }
+
     // (1) structured wrong-arity inputs must be rejected (fixed enumeration)
     let mut idx = 0usize;
     for f in ALL_FMT {
